@@ -278,6 +278,15 @@ def gen_program(rng, prop, tier, run_index):
     if fault_mode and prop == 'C01' and cfg['family'] == 'Qc' and cfg['cond'] <= 1e3 and not cfg.get('barrier'):
         ops.append({'op': 'solve', 'driver': 'nes', 'warm': False, 'upd': True, 'dp': {}, 'settings': {},
                     'liveness': True})
+    if prop == 'C19' and rng.random() < 0.3:
+        # design-study histories (seeded change C19-4): a design-slot warm start after every load step, so that
+        # the design-slot Jacobian-vector product is used repeatedly while the other slots move in between
+        out = []
+        for op in ops:
+            out.append(op)
+            if op['op'] == 'solve' and len(out) < 12:
+                out.append({'op': 'warm_only', 'slot': 2, 'dp': gen_dp(rng, False, force=True)})
+        ops = out
     return {'engine': 'solver_sim', 'config': cfg, 'ops': ops}
 
 
